@@ -71,8 +71,8 @@ SmallPairs == {
     << Bin("ULeg", One, Two), Bin("ULeg", OneB, Two) >>,
     << Bin("Lookup", x, CStr("p")), Bin("Lookup", x, CStr("q")) >>,
     << CallKwN(ff, << x >>, Dct(A1B2)), CallKwN(ff, << x >>, Imm(<< KwE("b", Two), KwE("a", One) >>)) >>,
-    \* a value that is not == itself: directly in a field, in a tuple field
-    << PowN1, PowN1 >>,
+    \* a value that is not == itself, the same float object in the tuple field of two nodes
+    \* (equal through the identity of the element; "ssmall" has it directly in a field)
     << Ch("Sum", << x, N1 >>), Ch("Sum", << x, N1 >>) >> }
 SelfSmall == { << PowN1 >>, << Un("LogicalNot", PowN1) >>, << U3("ULegChild", x, y, N1) >> }
 
